@@ -73,7 +73,21 @@ func factsAmf0(p *pkgInfo, w *bytes.Buffer) error {
 		}
 	}
 	if after == "" {
-		return fmt.Errorf("Discovery: no return after the switch")
+		// no statement after the switch: every arm returns and a `default:` arm says what an unlisted marker gets
+		for _, cc := range sw.Body.List {
+			if c := cc.(*ast.CaseClause); c.List == nil && len(c.Body) > 0 {
+				if ret, ok := c.Body[0].(*ast.ReturnStmt); ok {
+					o, err := discoveryOutcome(ret)
+					if err != nil {
+						return err
+					}
+					after = o
+				}
+			}
+		}
+	}
+	if after == "" {
+		return fmt.Errorf("Discovery: neither a return after the switch nor a default arm that returns")
 	}
 	type arm struct {
 		vals    []string
@@ -127,54 +141,57 @@ func factsAmf0(p *pkgInfo, w *bytes.Buffer) error {
 	}
 	fmt.Fprintf(w, "  .%s\n", leanName(def))
 	// K3: does the container decoder advance by what the child consumed (O(1)) or re-walk it with Size()?
-	ub := p.funcDecl("objectBase", "unmarshal")
-	if ub == nil {
-		return fmt.Errorf("func (*objectBase) unmarshal")
+	// Looked for anywhere in the package (the decoder may be one method or split into helpers, its locals may have
+	// any names): a slice expression `x[y.consumed():]` advancing past a child, and the fallback `x[y.Size():]` for
+	// a child VALUE only in the else branch of an `if c, ok := y.(consumer); ok {…} else {…}`.
+	usesConsumed, usesSize, guarded, sizeOutsideElse := false, false, false, false
+	isAmf0Value := func(e ast.Expr) bool {
+		tv, ok := p.info.Types[e]
+		return ok && tv.Type != nil && tv.Type.String() == p.pkg.Path()+".Amf0"
 	}
-	usesConsumed, usesSize := false, false
-	ast.Inspect(ub.Body, func(n ast.Node) bool {
-		as, ok := n.(*ast.AssignStmt)
-		if !ok || len(as.Lhs) != 1 || len(as.Rhs) != 1 {
-			return true
-		}
-		if id, ok := as.Lhs[0].(*ast.Ident); !ok || id.Name != "p" {
-			return true
-		}
-		sl, ok := as.Rhs[0].(*ast.SliceExpr)
-		if !ok || sl.Low == nil {
-			return true
-		}
-		if c, ok := sl.Low.(*ast.CallExpr); ok {
-			if se, ok := c.Fun.(*ast.SelectorExpr); ok {
-				switch se.Sel.Name {
-				case "consumed":
-					usesConsumed = true
-				case "Size":
-					// p = p[a.Size():] for a child value `a` (the key advance is u.Size(), a plain string)
-					if id, ok := se.X.(*ast.Ident); ok && id.Name == "a" {
-						usesSize = true
+	var scan func(n ast.Node, inElse bool)
+	scan = func(n ast.Node, inElse bool) {
+		ast.Inspect(n, func(n ast.Node) bool {
+			switch x := n.(type) {
+			case *ast.IfStmt:
+				if as, ok := x.Init.(*ast.AssignStmt); ok && len(as.Rhs) == 1 && x.Else != nil {
+					if ta, ok := as.Rhs[0].(*ast.TypeAssertExpr); ok {
+						if id, ok := ta.Type.(*ast.Ident); ok && id.Name == "consumer" {
+							guarded = true
+							scan(x.Body, inElse)
+							scan(x.Else, true)
+							return false
+						}
+					}
+				}
+			case *ast.SliceExpr:
+				if c, ok := x.Low.(*ast.CallExpr); ok && x.High == nil {
+					if se, ok := c.Fun.(*ast.SelectorExpr); ok {
+						switch se.Sel.Name {
+						case "consumed":
+							usesConsumed = true
+						case "Size":
+							if isAmf0Value(se.X) {
+								usesSize = true
+								if !inElse {
+									sizeOutsideElse = true
+								}
+							}
+						}
 					}
 				}
 			}
-		}
-		return true
-	})
-	// the fallback to a.Size() must be in the else branch of the `consumer` type assertion
-	guarded := false
-	ast.Inspect(ub.Body, func(n ast.Node) bool {
-		is, ok := n.(*ast.IfStmt)
-		if !ok || is.Init == nil || is.Else == nil {
 			return true
-		}
-		if as, ok := is.Init.(*ast.AssignStmt); ok && len(as.Rhs) == 1 {
-			if ta, ok := as.Rhs[0].(*ast.TypeAssertExpr); ok {
-				if id, ok := ta.Type.(*ast.Ident); ok && id.Name == "consumer" {
-					guarded = true
-				}
+		})
+	}
+	for _, f := range p.files {
+		for _, d := range f.Decls {
+			if fd, ok := d.(*ast.FuncDecl); ok && fd.Body != nil {
+				scan(fd.Body, false)
 			}
 		}
-		return true
-	})
+	}
+	guarded = guarded && !sizeOutsideElse
 	// every container type implements consumed()
 	impl := 0
 	for _, t := range []string{"Object", "EcmaArray", "StrictArray"} {
